@@ -40,7 +40,8 @@ vars == <<st, termErr, ictx, latch, task, ex, exErr, k, reqSent, online, avail, 
           pcol, ecol, cctx, outErrs, outClosed, wire, hookCalls, waiters, status, nenv, gotTerminal, cancelLive>>
 
 \* ex = "blocked": the only worker is busy with another request
-Init == /\ st = "queued" /\ termErr = "none" /\ ictx = FALSE /\ latch = FALSE /\ task = "pending"
+\* st = "setup": the manager is still handling the new-request message (validation, outgoing request hooks)
+Init == /\ st \in {"queued", "setup"} /\ termErr = "none" /\ ictx = FALSE /\ latch = FALSE /\ task = (IF st = "setup" THEN "none" ELSE "pending")
         /\ ex \in {"idle", "blocked"} /\ exErr = "nil" /\ k = 0 /\ reqSent = FALSE /\ online = FALSE /\ avail = 0
         /\ inErr = "none" /\ inErrBy = "none" /\ closedIn = FALSE /\ pcol = "run" /\ ecol = "run" /\ cctx = FALSE
         /\ outErrs = <<>> /\ outClosed = <<FALSE, FALSE>> /\ wire = <<>> /\ hookCalls = {} /\ waiters = 0
@@ -49,7 +50,7 @@ Init == /\ st = "queued" /\ termErr = "none" /\ ictx = FALSE /\ latch = FALSE /\
 \* the responder B serves the request between receiving it and sending its terminal status / being told to cancel
 ToB == { i \in 1..Len(wire) : wire[i][1] = "B" /\ wire[i][2] \in {"new", "cancel"} }
 bServing == ToB # {} /\ wire[CHOOSE m \in ToB : \A j \in ToB : j <= m][2] = "new" /\ status \notin {"full", "failed"}
-ActorFree == inErrBy # "actor"      \* the actor is not blocked inside terminateRequest
+ActorFree == inErrBy # "actor" /\ st # "setup"      \* the actor is not blocked inside terminateRequest
 Live == st \in {"queued", "running", "paused"}
 
 \* ---- terminateRequest, first half: deliver the terminal error (blocking rendezvous), or go straight on
@@ -137,6 +138,11 @@ FreeWorker == /\ ex = "blocked" /\ ex' = "idle"
               /\ UNCHANGED <<st, termErr, ictx, latch, task, exErr, k, reqSent, online, avail, inErr, inErrBy, closedIn, pcol, ecol, cctx, outErrs,
                              outClosed, wire, hookCalls, waiters, status, nenv, gotTerminal>>
 
+\* the new-request handler finishes: the request is recorded and queued, NewRequest returns the channels to the caller
+SetupDone == /\ st = "setup" /\ st' = "queued" /\ task' = "pending"
+             /\ UNCHANGED <<termErr, ictx, latch, ex, exErr, k, reqSent, online, avail, inErr, inErrBy, closedIn, pcol, ecol, cctx, outErrs,
+                            outClosed, wire, hookCalls, waiters, status, nenv, gotTerminal>>
+
 \* ---- executor (task-queue worker) ---------------------------------------------------------
 Pop == /\ ex = "idle" /\ task = "pending" /\ task' = "active" /\ ex' = "get"
        /\ UNCHANGED <<st, termErr, ictx, latch, exErr, k, reqSent, online, avail, inErr, inErrBy, closedIn, pcol, ecol, cctx, outErrs,
@@ -218,12 +224,12 @@ EClosed == /\ ecol = "run" /\ closedIn /\ inErr = "none"
            /\ outErrs' = IF cctx THEN Append(outErrs, "client") ELSE outErrs
            /\ UNCHANGED <<st, termErr, ictx, latch, task, ex, exErr, k, reqSent, online, avail, inErr, inErrBy, closedIn, pcol, cctx,
                           wire, hookCalls, waiters, status, nenv, gotTerminal>>
-ECtx == /\ ecol = "run" /\ cctx
+ECtx == /\ ecol = "run" /\ cctx /\ st # "setup"
         /\ ecol' = "done" /\ outErrs' = Append(outErrs, "client") /\ outClosed' = <<outClosed[1], TRUE>>
         /\ UNCHANGED <<st, termErr, ictx, latch, task, ex, exErr, k, reqSent, online, avail, inErr, inErrBy, closedIn, pcol, cctx,
                        wire, hookCalls, waiters, status, nenv, gotTerminal>>
 \* progress collector: on caller-context cancellation it queues a cancel message and drains both internal channels
-PCtx == /\ pcol = "run" /\ cctx /\ ~closedIn /\ pcol' = "cancel"
+PCtx == /\ pcol = "run" /\ cctx /\ ~closedIn /\ st # "setup" /\ pcol' = "cancel"
         /\ UNCHANGED <<st, termErr, ictx, latch, task, ex, exErr, k, reqSent, online, avail, inErr, inErrBy, closedIn, ecol, cctx, outErrs,
                        outClosed, wire, hookCalls, waiters, status, nenv, gotTerminal>>
 PSendCancel == /\ pcol = "cancel" /\ CancelMsg(FALSE) /\ pcol' = "drain" /\ UNCHANGED <<gotTerminal, nenv>>
@@ -235,7 +241,7 @@ PClosed == /\ pcol \in {"run", "drain"} /\ closedIn /\ (pcol = "drain" => inErr 
            /\ UNCHANGED <<st, termErr, ictx, latch, task, ex, exErr, k, reqSent, online, avail, inErr, inErrBy, closedIn, ecol, cctx, outErrs,
                           wire, hookCalls, waiters, status, nenv, gotTerminal>>
 \* caller
-CtxCancel == /\ ~cctx /\ nenv < MaxEnv /\ nenv' = nenv + 1 /\ cctx' = TRUE /\ gotTerminal' = gotTerminal /\ cancelLive' = (Live /\ termErr = "none" /\ status \notin {"full", "failed"})
+CtxCancel == /\ ~cctx /\ nenv < MaxEnv /\ nenv' = nenv + 1 /\ cctx' = TRUE /\ gotTerminal' = gotTerminal /\ cancelLive' = ((Live \/ st = "setup") /\ termErr = "none" /\ status \notin {"full", "failed"})
              /\ UNCHANGED <<st, termErr, ictx, latch, task, ex, exErr, k, reqSent, online, avail, inErr, inErrBy, closedIn, pcol, ecol,
                             outErrs, outClosed, wire, hookCalls, waiters, status>>
 ApiCancel == /\ nenv < MaxEnv /\ nenv' = nenv + 1 /\ CancelMsg(TRUE) /\ gotTerminal' = gotTerminal /\ pcol' = pcol
@@ -244,13 +250,14 @@ Env == \/ \E s \in {"partial", "paused", "full", "failed"}, hr \in {"ok", "updat
        \/ \E s \in {"partial", "paused", "full", "failed"}, hr \in {"ok", "update", "error"} : Responses("C", s, hr) /\ gotTerminal' = gotTerminal
        \/ PauseApi \/ CtxCancel \/ ApiCancel
 Loaded == IF k > K THEN k - (K + 1) ELSE k
-Sys == GetTask \/ Release \/ TerminateRest \/ RemoveTask \/ Pop \/ Load \/ Report \/ Reported \/ LatchOnly \/ (\E h \in {"ok", "pause", "error"} : Hook(h))
+Sys == GetTask \/ Release \/ TerminateRest \/ RemoveTask \/ SetupDone \/ Pop \/ Load \/ Report \/ Reported \/ LatchOnly \/ (\E h \in {"ok", "pause", "error"} : Hook(h))
        \/ Finish \/ Finished \/ ECollect \/ EClosed \/ ECtx \/ PCtx \/ PSendCancel \/ PDrainErr \/ PClosed
 EnvNoCtx == \/ \E s \in {"partial", "paused", "full", "failed"}, hr \in {"ok", "update", "error"} : bServing /\ Responses("B", s, hr)
             \/ \E s \in {"partial", "paused", "full", "failed"}, hr \in {"ok", "update", "error"} : Responses("C", s, hr) /\ gotTerminal' = gotTerminal
             \/ PauseApi \/ ApiCancel \/ FreeWorker
 Next == CtxCancel \/ ((EnvNoCtx \/ Sys \/ UnpauseApi) /\ cancelLive' = cancelLive)
-ActorSteps == GetTask \/ Release \/ TerminateRest \/ RemoveTask
+ActorCore == GetTask \/ Release \/ TerminateRest \/ RemoveTask
+ActorSteps == ActorCore \/ SetupDone
 ExecSteps == Pop \/ Load \/ Report \/ Reported \/ LatchOnly \/ (\E h \in {"ok", "pause", "error"} : Hook(h)) \/ Finish \/ Finished
 EColSteps == ECollect \/ EClosed \/ ECtx
 PColSteps == PCtx \/ PSendCancel \/ PDrainErr \/ PClosed
